@@ -90,7 +90,7 @@ PROPS["C02"] = {
     "bounds": "engine M: linearizability by symbolic enumeration of all program-order-respecting total orders (<= 6 operations incl. the drain), real-time order from the first/last visible step of every call; BUFFER_SIZE 2 (quick) / 4 (thorough); origin any u32",
     "outside": "histories with more than 6 operations; BUFFER_SIZE > 4; orderings weaker than SC; crossbeam channel (sequential K scripts only)",
     "assumptions": [_M_NOTE, "capacity rule as in the statement: a rejected send is explained when (events in the queue) + (calls in progress during the send) >= BUFFER_SIZE at its linearization point; an empty answer needs an empty queue at its linearization point"],
-    "m": [M("c02_atomic_lin_1p2c_n2_k2"), M("c02_atomic_lin_2p1c_n2_k1"), M("c02_atomic_lin_pp_cc_n2_k1"), M("c02_fullsync_lin_2p1c_n2_k1"), M("c02_zc_atomic_lin_p_cc_n2_k1"),
+    "m": [M("c02_atomic_lin_1p2c_n2_k2"), M("c02_atomic_lin_2p1c_n2_k1"), M("c02_atomic_lin_pp_cc_n2_k1"), M("c02_fullsync_lin_2p1c_n2_k1"), M("c02_zc_atomic_lin_p_cc_n2_k1", "thorough"),
           M("c02_atomic_lin_2p2c_n2_k1", "thorough"), M("c02_atomic_lin_2p2c_n2_k2", "thorough"), M("c02_atomic_lin_2p1c_n4_k3", "thorough"), M("c02_fullsync_lin_2p2c_n2_k1", "thorough"),
           M("c02_zc_atomic_lin_pp_cc_n2_k1", "thorough"), M("c02_zc_fullsync_lin_p_cc_n2_k1", "thorough")],
     "k": [],
@@ -131,7 +131,7 @@ PROPS["C16"] = {
     "bounds": "engine M: one consumer thread that returns + 2 (quick) / 3 (thorough) producers colliding at the full boundary (BUFFER_SIZE 2, pre-filled full); a producer that is still not finished although every other thread returned K steps earlier (K = its longest acyclic path + 2) is a violation; stuttering allowed, no partial-order reduction. engine K (harnesses c01::*): rejected send leaves pending count unchanged, payload handed back, after a drain exactly BUFFER_SIZE sends are accepted, any origin",
     "outside": "more than 3 producers; unbounded fill/drain histories beyond the script length (K covers L<=6 + drain + refill); Arc Multi channels and crossbeam setter sends (excluded by the statement)",
     "assumptions": [_M_NOTE, "'returns promptly' is decided as: the call finishes within a bounded number of its own steps once no other thread is running"],
-    "m": [M("c16_atomic_two_rejected_vs_consumer_n2"), M("c16_atomic_rejected_vs_two_recv_n2"), M("c16_fullsync_two_rejected_vs_consumer_n2"), M("c16_zc_atomic_rejected_vs_consumer_n2", "thorough"),
+    "m": [M("c16_atomic_two_rejected_vs_consumer_n2"), M("c16_atomic_rejected_vs_two_recv_n2", "thorough"), M("c16_fullsync_two_rejected_vs_consumer_n2"), M("c16_zc_atomic_rejected_vs_consumer_n2", "thorough"),
           M("c16_atomic_three_senders_n2", "thorough"), M("c16_zc_fullsync_rejected_vs_consumer_n2", "thorough")],
     "k": [H("c01::c01_ring_atomic_n2_l5", inst="AtomicMove<u32,2>", bounds="L=5", oracle="C16 assertions of the FIFO script", stubs=_C08_STUBS),
           H("c01::c01_ring_full_sync_n2_l5", inst="FullSyncMove<u32,2>", bounds="L=5", stubs=_C08_STUBS)],
@@ -139,13 +139,12 @@ PROPS["C16"] = {
 }
 PROPS["C18"] = {
     "engine": "mir-bmc + kani-real", "technique": _M_TECH,
-    "bounds": "engine M: atomic-flag stack, 2-3 threads x <=2 (quick) / 3 (thorough) push/pop, capacity 2 / 4, strict linearizability against a bounded LIFO; the two non-blocking queues through the MIR of the zero-copy rings they wrap (linearizable FIFO, see C02); engine K: sequential scripts L=5..6 on the real Stack / parking-lot Stack / NonBlockingQueue types against array models",
-    "outside": "the parking-lot stack under concurrency (parking_lot::RawMutex is dependency code: only sequential K scripts); METRICS/DEBUG=true instantiations; 'long free-running multi-core runs' (not solver-based)",
+    "bounds": "engine M: atomic-flag stack, 2-3 threads x <=2 (quick) / 3 (thorough) push/pop, capacity 2 / 4, strict linearizability against a bounded LIFO; the two non-blocking queues through the MIR of the zero-copy rings they wrap (linearizable FIFO, see C02); engine K: sequential scripts L=5..6 on the real atomic-flag Stack and the two NonBlockingQueue types against array models",
+    "outside": "the parking-lot stack (parking_lot::RawMutex is dependency code for engine M, and Kani 0.68 crashes with an internal compiler error in its intrinsics pass when a harness reaches it -- the harness was removed); METRICS/DEBUG=true instantiations; 'long free-running multi-core runs' (not solver-based)",
     "assumptions": [_M_NOTE],
     "m": [M("c18_stack_push_vs_pop_n2_k1"), M("c18_stack_3thr_n2_k1"), M("c18_stack_full_boundary_n2_k2"), M("c18_queue_atomic_lin_p_cc_n2_k1"), M("c18_queue_fullsync_lin_p_cc_n2_k1"),
           M("c18_stack_3thr_n4_k2", "thorough"), M("c18_stack_2x3_n2_k1", "thorough"), M("c18_queue_atomic_lin_pp_c_c_n2_k1", "thorough")],
     "k": [H("c18::c18_atomic_stack_n2_l6", inst="non_blocking_atomic_stack::Stack<u32,2,false,false>", bounds="L=6", oracle="array LIFO model", stubs=_C08_STUBS),
-          H("c18::c18_parking_lot_stack_n2_l6", inst="non_blocking_parking_lot_stack::Stack<u32,2,false,false>", bounds="L=6", oracle="array LIFO model", stubs=_C08_STUBS),
           H("c18::c18_atomic_queue_n2_l5", inst="atomic::NonBlockingQueue<u32,2,0>", bounds="L=5", oracle="array FIFO model", stubs=_C08_STUBS),
           H("c18::c18_full_sync_queue_n2_l5", inst="full_sync::NonBlockingQueue<u32,2,0>", bounds="L=5", oracle="array FIFO model", stubs=_C08_STUBS)],
     "k_budget": {"quick": {"jobs": 4, "timeout_s": 1200, "mem_gb": 14}},
@@ -214,7 +213,7 @@ PROPS["C10"] = {
         H("c10::c10_shape_ms2_cdcc_o0", inst="StreamsManagerBase<2>", bounds="create, drop, create, create; origin 0", stubs=_C10_STUBS, ignore_failed=_DEALLOC_ARTEFACT),
         H("c10::c10_shape_ms2_ccddcc_wrap", inst="StreamsManagerBase<2>", bounds="create, create, drop(any), drop, create, create; origin 2^32-3 (wraps)", stubs=_C10_STUBS, ignore_failed=_DEALLOC_ARTEFACT),
         H("c10::c10_shape_ms4_cccdc_o0", inst="StreamsManagerBase<4>", bounds="create x3, drop(any live), create; origin 0", stubs=_C10_STUBS, ignore_failed=_DEALLOC_ARTEFACT),
-        H("c10::c10_recycle1_arc_atomic", inst="ChannelMultiArcAtomic<u32,2,1>", bounds="history A:create, send(any u32), (consume)?, drop; B:create (recycles A's id), consume; origin 0", oracle="B yields nothing that was sent before its creation", stubs=_C10_CH_STUBS, ignore_failed=_DEALLOC_ARTEFACT, group="g1"),
+        H("c10::c10_recycle1_arc_atomic", inst="ChannelMultiArcAtomic<u32,2,1>", bounds="history A:create, send(any u32), (consume)?, drop; B:create (recycles A's id), consume; origin 0", oracle="B yields nothing that was sent before its creation", stubs=_C10_CH_STUBS, ignore_failed=_DEALLOC_ARTEFACT),
         H("c10::c10_recycle1_ogre_arc_atomic", tier="thorough", inst="ChannelMultiOgreArcAtomic<u32,2,1>", bounds="same history; origin 0", stubs=_C10_CH_STUBS, ignore_failed=_DEALLOC_ARTEFACT, group="g5", mem_gb=40, jobs=1),
         H("c10::c10_recycle1_arc_full_sync", tier="thorough", inst="ChannelMultiArcFullSync<u32,2,1>", stubs=_C10_CH_STUBS, ignore_failed=_DEALLOC_ARTEFACT, group="g3"),
         H("c10::c10_recycle1_arc_crossbeam", tier="thorough", inst="ChannelMultiArcCrossbeam<u32,2,1>", stubs=_C10_CH_STUBS, ignore_failed=_DEALLOC_ARTEFACT, group="g3"),
@@ -222,15 +221,15 @@ PROPS["C10"] = {
         H("c10::c10_shape_ms4_ccdcdc_wrap", tier="thorough", inst="StreamsManagerBase<4>", bounds="6 calls; origin 2^32-2", stubs=_C10_STUBS, ignore_failed=_DEALLOC_ARTEFACT, group="g2"),
         H("c10::c10_books_ms2_l4", tier="thorough", inst="StreamsManagerBase<2>", bounds="L=4 solver-chosen operations, origin ANY u32 (expensive)", stubs=_C10_STUBS, ignore_failed=_DEALLOC_ARTEFACT, group="g4", timeout_s=7200, mem_gb=40, jobs=1),
     ],
-    "k_budget": {"quick": {"jobs": 4, "timeout_s": 1500, "mem_gb": 16}, "thorough": {"jobs": 3, "timeout_s": 7200, "mem_gb": 30}},
+    "k_budget": {"quick": {"jobs": 5, "timeout_s": 1500, "mem_gb": 16}, "thorough": {"jobs": 3, "timeout_s": 7200, "mem_gb": 30}},
 }
 PROPS["C03"] = {
     "engine": "mir-bmc", "technique": _M_TECH,
-    "bounds": "engine M: Multi arc/atomic and arc/full-sync channels (send -> Arc::new + send_derived fan-out; consume(stream_id)), MAX_STREAMS 2 with 1-2 listeners whose set does not change (the live-stream list is a constant of the query), BUFFER_SIZE 4, 1-2 producers x 1-2 sends (all sequences shorter than the buffer), each listener consuming concurrently and then draining; origin any u32; payloads distinct symbolic u32",
+    "bounds": "engine M: Multi arc/atomic and arc/full-sync channels (send -> Arc::new + send_derived fan-out; consume(stream_id)), MAX_STREAMS 2 with 1-2 listeners whose set does not change (the live-stream list is a constant of the query), BUFFER_SIZE 4, 1-2 producers x 1-2 sends (all sequences shorter than the buffer), each listener consuming 0-1 events concurrently, the rest read from the final state of its queue; origin any u32; payloads distinct symbolic u32",
     "outside": "the same-allocation clause (std::sync::Arc is carried as its content: Arc::new / clone / drop are trusted); OgreArc, crossbeam and mmap-log Multi channels (see C14/C05 for the OgreArc handles, C09 for the log); send_with / send_with_async entry points (they wrap the same send_derived); MAX_STREAMS > 2; the 500 ms sleep-and-retry path of a full listener queue (encoded, but the bounds never fill a queue); waking (C04)",
     "assumptions": [_M_NOTE, "logging is off (no logger is installed by the library: the log-level test answers false); thread::sleep has no effect on shared state"],
     "functions": ["multi::channels::arc::{atomic,full_sync}::{send, send_derived, consume}", "StreamsManagerBase::{used_streams, wake_stream}", "AtomicMove / FullSyncMove::{publish_movable, consume_movable} and their internals"],
-    "m": [M("c03_arc_atomic_1p2_2l"), M("c03_arc_atomic_2p_1l"), M("c03_arc_full_sync_1p2_2l"),
-          M("c03_arc_atomic_2p_2l", "thorough"), M("c03_arc_full_sync_2p_2l", "thorough"), M("c03_arc_atomic_2p2_1l", "thorough")],
+    "m": [M("c03_arc_atomic_2p_1l"), M("c03_arc_atomic_1p_2l_c"), M("c03_arc_full_sync_2p_1l"),
+          M("c03_arc_atomic_1p2_2l", "thorough"), M("c03_arc_atomic_2p_1l_c", "thorough"), M("c03_arc_atomic_2p_2l", "thorough"), M("c03_arc_full_sync_1p2_2l", "thorough"), M("c03_arc_atomic_2p2_1l", "thorough")],
     "k": [],
 }
